@@ -183,6 +183,9 @@ class Project(object):
         if not package.startswith('.'):
             return package
 
+        if not filename:
+            raise ImportError('Relative import without a file name: {}'.format(package))
+
         root = filename
         for _ in range(len(package) - len(package.lstrip('.'))):
             root = os.path.dirname(root)
